@@ -333,6 +333,8 @@ func Run(c *core.Ctx, replay string) (*core.Result, error) {
 		if err != nil {
 			return nil, err
 		}
+		nw := sqlprog.NamingWitness(7000)
+		items = append(items, Item{ID: len(items) + 1, Label: "sql model file (tables and fields named like the templates' own identifiers)", Files: sqlprog.Render(nw), Source: sqlprog.Dir(nw.ID) + "/models.go", Pkg: synth.ModRoot + "/" + sqlprog.Dir(nw.ID)})
 		rounds := 1
 		if c.Thorough() {
 			rounds = 6
